@@ -25,7 +25,17 @@ MIXED = """<mujoco><option cone="%s" jacobian="%s" solver="%s"/><worldbody>
   <body pos=".3 0 0"><joint type="hinge" axis="0 1 0"/><geom type="capsule" fromto="0 0 0 .3 0 0" size=".03"/></body></body>
 </worldbody></mujoco>"""
 
+CONDIM = """<mujoco><option cone="elliptic" jacobian="sparse" solver="Newton"/><worldbody>
+<geom type="plane" size="5 5 .1" condim="%d" friction="0.9 0.05 0.01"/>
+<body pos="0 0 0.099"><freejoint/><geom type="box" size=".1 .08 .1" condim="%d" friction="0.9 0.05 0.01"/></body>
+<body pos="0.4 0 0.069"><freejoint/><geom type="sphere" size=".07" condim="%d" friction="0.9 0.05 0.01"/></body>
+<body pos="0.41 0.01 0.2"><freejoint/><geom type="sphere" size=".06" condim="%d" friction="0.9 0.05 0.01"/></body>
+</worldbody></mujoco>"""
+
 CONFIGS = {
+  "ell_sparse_condim4": dict(xml=CONDIM % (4, 4, 4, 4), qvel=[0.3, 0.1, 0, 0.5, -0.4, 2.0] * 3),
+  "ell_sparse_condim6": dict(xml=CONDIM % (6, 6, 6, 6), qvel=[0.3, 0.1, 0, 0.5, -0.4, 2.0] * 3),
+  "ell_sparse_condim3": dict(xml=CONDIM % (3, 3, 3, 3), qvel=[0.3, 0.1, 0, 0.5, -0.4, 2.0] * 3),
   "box_ccd": dict(xml=BOXES % "enable"),
   "box_prim": dict(xml=BOXES % "disable"),
   "mixed_pyr_dense_newton": dict(xml=MIXED % ("pyramidal", "dense", "Newton")),
@@ -46,6 +56,8 @@ def run(cfg):
   c = CONFIGS[cfg]
   m = mujoco.MjModel.from_xml_string(c["xml"])
   d = mujoco.MjData(m)
+  if "qvel" in c:
+    d.qvel[:] = c["qvel"]
   mujoco.mj_forward(m, d)
   mm = mjw.put_model(m)
   if "broadphase" in c:
@@ -62,9 +74,63 @@ def run(cfg):
   return {"config": cfg, "digest": h.hexdigest(), "nacon": n, "qacc0": [float(x) for x in dd.qacc.numpy()[0][:4]]}
 
 
+FACTORY_ARGS = {}  # factory -> set of offending (position, type name) seen at run time
+
+
+def record_factory_arguments():
+  """Wrap every @cache_kernel factory of mujoco_warp._src (module attribute whose function is
+  warp_util.cache_kernel's `wrapper`) so that the run-time TYPE of each argument is checked against the
+  domain of the key-soundness theorem: bool / int / IntEnum / str / None / TileSet / list,tuple of those.
+  Anything else that has a `.size` attribute (numpy scalars, arrays) is hashed by its size only."""
+  import enum
+  import importlib
+  import pkgutil
+
+  import mujoco_warp._src as src
+
+  def ok(a):
+    if a is None or isinstance(a, (bool, int, str, enum.Enum)) and type(a).__module__ != "numpy":
+      return type(a) in (bool, int, str, type(None)) or isinstance(a, enum.Enum)
+    if type(a).__name__ == "TileSet":
+      return True
+    if type(a).__name__ == "Function" and not hasattr(a, "size"):
+      return True  # module-level wp.Function objects: hashed by identity, which is injective within a process
+    if isinstance(a, (list, tuple)):
+      return all(ok(x) for x in a)
+    return False
+
+  for mi in pkgutil.iter_modules(src.__path__):
+    if mi.name.endswith("_test"):
+      continue
+    try:
+      mod = importlib.import_module("mujoco_warp._src." + mi.name)
+    except Exception:
+      continue
+    for n, v in list(vars(mod).items()):
+      code = getattr(v, "__code__", None)
+      if code is None or code.co_name != "wrapper" or not code.co_filename.endswith("warp_util.py") or not hasattr(v, "__wrapped__"):
+        continue
+      if not any(getattr(c, "co_name", None) == "_hash_arg" for c in code.co_consts):
+        continue  # some other decorator of warp_util (event_scope ...)
+
+      def make(orig, qual):
+        def rec(*args):
+          for i, a in enumerate(args):
+            if not ok(a):
+              FACTORY_ARGS.setdefault(qual, set()).add((i, type(a).__module__ + "." + type(a).__name__, repr(a)[:40]))
+          return orig(*args)
+
+        rec.__wrapped__ = orig.__wrapped__
+        return rec
+
+      setattr(mod, n, make(v, f"{mi.name}.{n}"))
+
+
 if __name__ == "__main__":
   import warp as wp
 
   wp.config.quiet = True
+  record_factory_arguments()
   out = [run(c) for c in json.loads(sys.argv[1])]
+  print("C36ARGS " + json.dumps({k: sorted(v) for k, v in FACTORY_ARGS.items()}))
   print("C36RESULT " + json.dumps(out))
